@@ -15,10 +15,26 @@ FLIP = {"<": ">", "<=": ">=", ">": "<", ">=": "<=", "==": "==", "!=": "!="}
 SYM = {ast.Lt: "<", ast.LtE: "<=", ast.Gt: ">", ast.GtE: ">=", ast.Eq: "==", ast.NotEq: "!="}
 
 
-def mask_terms(e: ast.AST) -> Optional[Tuple[str, Set[Tuple[str, str, float]]]]:
-    """(a OP c) & (b OP d) ...  ->  ('and'|'or'|'atom', {(lhs, op, const)})  with the quantity on the left."""
+NEG = {"<": ">=", "<=": ">", ">": "<=", ">=": "<", "==": "!=", "!=": "=="}
+
+
+def mask_terms(e: ast.AST, resolve=None, at=None, _depth: int = 0) -> Optional[Tuple[str, Set[Tuple[str, str, float]]]]:
+    """(a OP c) & (b OP d) ...  ->  ('and'|'or'|'atom', {(lhs, op, const)})  with the quantity on the left.
+    `~m` is pushed inwards (De Morgan); a Name is looked up through `resolve(name, at)` (engine.pattern.make_resolver), so a mask
+    that was given a local name is judged by its definition."""
+    if isinstance(e, ast.Name) and resolve is not None and _depth < 4:
+        r = resolve(e, at)
+        if r is None:
+            return None
+        return mask_terms(r[0], resolve, r[1], _depth + 1)
+    if isinstance(e, ast.UnaryOp) and isinstance(e.op, ast.Invert):
+        m = mask_terms(e.operand, resolve, at, _depth)
+        if m is None:
+            return None
+        kind = {"and": "or", "or": "and", "atom": "atom"}[m[0]]
+        return kind, {(l, NEG[o], c) for l, o, c in m[1]}
     if isinstance(e, ast.BinOp) and isinstance(e.op, (ast.BitAnd, ast.BitOr)):
-        l, r = mask_terms(e.left), mask_terms(e.right)
+        l, r = mask_terms(e.left, resolve, at, _depth), mask_terms(e.right, resolve, at, _depth)
         if l is None or r is None:
             return None
         kind = "and" if isinstance(e.op, ast.BitAnd) else "or"
@@ -30,29 +46,60 @@ def mask_terms(e: ast.AST) -> Optional[Tuple[str, Set[Tuple[str, str, float]]]]:
             a, b = e.left, e.comparators[0]
             va, vb = try_literal(a, default=None), try_literal(b, default=None)
             if isinstance(vb, (int, float)) and not isinstance(vb, bool):
-                return "atom", {(unparse(a), SYM[type(e.ops[0])], float(vb))}
+                return "atom", {(_lhs(a, resolve, at), SYM[type(e.ops[0])], float(vb))}
             if isinstance(va, (int, float)) and not isinstance(va, bool):
-                return "atom", {(unparse(b), FLIP[SYM[type(e.ops[0])]], float(va))}
+                return "atom", {(_lhs(b, resolve, at), FLIP[SYM[type(e.ops[0])]], float(va))}
         if len(e.ops) == 2 and all(type(o) in SYM for o in e.ops):  # c1 < x <= c2
             lo, x, hi = e.left, e.comparators[0], e.comparators[1]
             vl, vh = try_literal(lo, default=None), try_literal(hi, default=None)
             if isinstance(vl, (int, float)) and isinstance(vh, (int, float)):
-                return "and", {(unparse(x), FLIP[SYM[type(e.ops[0])]], float(vl)), (unparse(x), SYM[type(e.ops[1])], float(vh))}
+                return "and", {(_lhs(x, resolve, at), FLIP[SYM[type(e.ops[0])]], float(vl)), (_lhs(x, resolve, at), SYM[type(e.ops[1])], float(vh))}
     return None
+
+
+def _lhs(e: ast.AST, resolve, at) -> str:
+    """Text of the compared quantity; `df['c']` and `df.c` are the same column; a local naming a column expression is expanded."""
+    if isinstance(e, ast.Name) and resolve is not None:
+        r = resolve(e, at)
+        if r is not None and isinstance(r[0], (ast.Attribute, ast.Subscript)):
+            e = r[0]
+    if isinstance(e, ast.Subscript) and const_str(e.slice) and const_str(e.slice).isidentifier():
+        return f"{unparse(e.value)}.{const_str(e.slice)}"
+    return unparse(e)
+
+
+def as_freq_names(chk) -> Dict[str, str]:
+    """Local names of as_freq's result frame, coverage counter and total counter, found structurally:
+    `<R>['coverage'] = <NC> / <NT>` with `<NT> = <R>.resample(atomic_freq).count().resample(freq, origin=<R>.index[0]).count()`."""
+    from engine.pattern import PatCtx
+    f = chk.repo.func(DPU, "as_freq")
+    pc = PatCtx(f.node)
+    ok = pc.has("_NT_ = _R_.resample(atomic_freq).count().resample(freq, origin=_R_.index[0]).count()") and pc.has("_R_['coverage'] = _NC_ / _NT_")
+    if not ok:
+        return {}
+    return {"R": pc.name("_R_"), "NC": pc.name("_NC_"), "NT": pc.name("_NT_")}
 
 
 def as_freq_branches(chk) -> Dict[str, Dict[str, str]]:
     """series_type literal -> {'value': aggregator of the value, 'coverage': aggregator of the coverage counter}."""
     f = chk.repo.func(DPU, "as_freq")
     cfg = CFG(f.node)
+    nm = as_freq_names(chk)
+    if not nm:
+        raise AnalysisError("as_freq: cannot identify the result / coverage counters (`<R>['coverage'] = <n present> / <n total>` not found)")
+    rd = ReachingDefs(f.node, cfg)
     out: Dict[str, Dict[str, str]] = {}
     for s in cfg.stmts():
-        if isinstance(s, ast.Assign) and isinstance(s.targets[0], ast.Name) and s.targets[0].id in ("resampled", "n_coverage") and isinstance(s.value, ast.Call) and isinstance(s.value.func, ast.Attribute):
+        if isinstance(s, ast.Assign) and isinstance(s.targets[0], ast.Name) and s.targets[0].id in (nm["R"], nm["NC"]) and isinstance(s.value, ast.Call) and isinstance(s.value.func, ast.Attribute):
             inner = s.value.func.value
-            if isinstance(inner, ast.Call) and isinstance(inner.func, ast.Attribute) and inner.func.attr == "resample" and unparse(inner.func.value) == "atomic_series":
+            if isinstance(inner, ast.Call) and isinstance(inner.func, ast.Attribute) and inner.func.attr == "resample" and isinstance(inner.func.value, ast.Name):
+                # the resampled series must be the atomic (asfreq'd) series of this branch
+                src = [rd.value_of(d) for d in rd.reaching(s, inner.func.value.id)]
+                if not src or not all(isinstance(v, ast.Call) and isinstance(v.func, ast.Attribute) and v.func.attr == "asfreq" for v in src):
+                    continue
                 for t, pol in cfg.guards(s):
                     if pol and isinstance(t, ast.Compare) and unparse(t.left) == "series_type" and const_str(t.comparators[0]):
-                        out.setdefault(const_str(t.comparators[0]), {})["value" if s.targets[0].id == "resampled" else "coverage"] = s.value.func.attr
+                        out.setdefault(const_str(t.comparators[0]), {})["value" if s.targets[0].id == nm["R"] else "coverage"] = s.value.func.attr
     return out
 
 
